@@ -10,6 +10,7 @@ Case kinds
 """
 import json
 import math
+import random
 from fractions import Fraction as F
 
 import numpy as np
@@ -133,6 +134,8 @@ def gen_field(rng, exact, tier, nd=None, nvdim=None, min_n=1):
     nvdim = nvdim or rng.choice([1, 1, 2, 3, 3, 4])
     if nvdim == 1:
         vdims = None
+    elif rng.random() < 0.15:
+        vdims = []                        # explicitly unlabelled vector field (field.vdims is None)
     elif rng.random() < 0.3:
         vdims = None                      # constructor default labels
     else:
@@ -158,6 +161,7 @@ def geom(fs):
 
 
 GEO_ATTRS = ["cell", "pmin", "pmax"]
+DEFAULT_LABELS = {2: ["x", "y"], 3: ["x", "y", "z"], 4: ["v0", "v1", "v2", "v3"]}
 
 
 def gen_imports(rng, fs, tier):
@@ -313,9 +317,150 @@ def gen_raw(rng, exact):
                 cunits=cunits, dtype=dtype, data=data)
 
 
+def dfield(r, p1, p2, n, nvdim=1, vdims=None, dims=None, units=None, tf=1e-12, dtype="float64", unit=None, exact=False,
+           **extra):
+    """hand-written field of the directed core (data from the core's own fixed generator r)"""
+    nd = len(n)
+    dims = dims or (["x", "y", "z"][:nd] if nd <= 3 else [f"x{i}" for i in range(nd)])
+    fs = dict(exact=exact, p1=[S(F(float(x))) for x in p1], p2=[S(F(float(x))) for x in p2], dims=dims,
+              units=units or ["m"] * nd, tf=S(tfq(tf)), n=list(n), nvdim=nvdim, vdims=vdims, dtype=dtype, unit=unit,
+              data=gen_values(r, dtype, math.prod(n) * nvdim, True), n_type="list", nvdim_type=None, tf_type="float")
+    fs.update(extra)
+    return fs
+
+
+def centres(fs, a):
+    lo, hi, cell = geom(fs)
+    return [lo[a] + (j + F(1, 2)) * cell[a] for j in range(fs["n"][a])], cell[a]
+
+
+def directed_core():
+    """Seed-, tier- and run-independent cases, one small group per mechanism that a seeded change (rounds a-e,
+    /verif/seeded/C17-*) or a repaired defect went through.  Never trimmed."""
+    r = random.Random(424242)
+    out = []
+
+    def exp(fs, unit_arg=None):
+        out.append(dict(kind="export", field=fs, unit_arg=unit_arg))
+
+    def rnd(fs):
+        out.append(dict(kind="round", field=fs))
+
+    def imp(fs, cls, **mods):
+        out.append(dict(kind="import", field=fs, cls="core-" + cls, mods=mods))
+
+    def perturbed(fs, a, frac):
+        vals, c = centres(fs, a)
+        vals[1] = vals[1] + c * frac
+        return {str(a): [S(F(float(v))) for v in vals]}
+
+    # a1 / repaired defect: spacing test must be relative (nanometre coordinates, clearly uneven)
+    for sc in (1e-9, 1e-12, 1e-6):
+        fs = dfield(r, [0.0, -3 * sc], [5 * sc, 9 * sc], [5, 4], nvdim=2, vdims=["a", "b"])
+        imp(fs, "uneven-small-scale", coords=perturbed(fs, 0, F(3, 10)), del_attrs=list(GEO_ATTRS), inexact=True)
+        imp(fs, "uneven-small-scale-attrs", coords=perturbed(fs, 1, F(-3, 10)), del_attrs=[], inexact=True)
+    # b3: uneven coordinates while 'cell' (and the corners) are still there, ordinary scale
+    fs = dfield(r, [1.0], [7.0], [6], exact=True)
+    for sub in ([], ["pmin", "pmax"], ["pmin"], ["pmax"]):
+        imp(fs, "uneven-cell-kept", coords=perturbed(fs, 0, F(1, 4)), del_attrs=sub, inexact=True)
+    fs = dfield(r, [0.0, 0.0, 0.0], [3.0, 4.0, 2.5], [3, 4, 5], nvdim=3, exact=True)
+    imp(fs, "uneven-cell-kept", coords=perturbed(fs, 2, F(1, 100)), del_attrs=[], inexact=True)
+    # a2: empty-string units are units
+    for units in (["", "nm"], ["nm", ""], ["", ""]):
+        fs = dfield(r, [0, 0], [2, 3], [2, 3], units=units, exact=True)
+        rnd(fs)
+        exp(fs)
+        imp(fs, "empty-unit", del_attrs=list(GEO_ATTRS))
+    # a3: each corner attribute alone
+    for sub in (["pmax"], ["pmin"], ["pmax", "cell"], ["pmin", "cell"]):
+        fs = dfield(r, [-1.5, 2.0], [2.5, 5.0], [4, 3], nvdim=3, exact=True)
+        imp(fs, "one-corner", del_attrs=sub)
+        fs2 = dfield(r, [0.1e-9, -20e-9], [5.1e-9, 2e-9], [5, 4])
+        imp(fs2, "one-corner", del_attrs=sub)
+    # b1: the dtype comes back
+    for dt in ("int32", "float32", "uint8", "bool", "complex64", "int64", "int8", "uint16"):
+        fs = dfield(r, [0, 0], [2, 2], [2, 2], nvdim=2, vdims=["p", "q"], dtype=dt, exact=True)
+        rnd(fs)
+        imp(fs, "dtype", del_attrs=list(GEO_ATTRS))
+    # b2 / repaired defect: component count held as a numpy integer
+    for nt in ("int64", "uint8", "int32", "uint16"):
+        for nv in (1, 3):
+            rnd(dfield(r, [0, 0], [4, 2], [4, 2], nvdim=nv, exact=True, nvdim_type=nt))
+    fs = dfield(r, [0, 0], [4, 2], [4, 2], nvdim=2, exact=True)
+    imp(fs, "typed-nvdim", del_attrs=[], attr_repr={"nvdim": "int64"})
+    imp(fs, "typed-nvdim", del_attrs=[], attr_repr={"nvdim": "uint8"})
+    # c1 / repaired defect: dimension names that are also DataArray attributes
+    for dims in (["T", "name"], ["size", "shape"], ["units", "values"], ["dims", "attrs"], ["cell", "nvdim"], ["n", "pmin"]):
+        fs = dfield(r, [0, 1], [3, 5], [3, 2], dims=dims, units=["nm", "s"], exact=True)
+        exp(fs)
+        rnd(fs)
+        imp(fs, "attribute-like-dim", del_attrs=list(GEO_ATTRS))
+    # c2: a scalar DataArray without nvdim is refused (and a vector one)
+    for nv in (1, 1, 3):
+        fs = dfield(r, [0, 0], [2, 3], [2, 3], nvdim=nv, exact=True)
+        imp(fs, "no-nvdim", del_attrs=["nvdim"])
+        imp(fs, "no-nvdim", del_attrs=["nvdim"] + list(GEO_ATTRS))
+    # c3: falsy-but-present tolerance and other unusual factors
+    for tf, tt in ((0.0, "float"), (0.0, "np64"), (0.0, "int"), (0.0, "bool"), (1.0, "int"), (1e-3, "float"), (1e-30, "float"),
+                   (2.0 ** -40, "np64")):
+        fs = dfield(r, [-2.0, 0.5], [2.0, 3.5], [4, 3], nvdim=2, tf=tf, tf_type=tt, exact=True)
+        rnd(fs)
+        exp(fs)
+        imp(fs, "tolerance", del_attrs=["cell"])
+        fs = dfield(r, [0.1e-9, -20e-9], [5.1e-9, 2e-9], [5, 4], tf=tf, tf_type=tt)
+        rnd(fs)
+    # d1: a component axis without labels (no 'vdims' coordinate)
+    for nv in (2, 3, 4):
+        fs = dfield(r, [0, 0], [2, 3], [2, 3], nvdim=nv, vdims=DEFAULT_LABELS[nv][::-1] if nv < 4 else ["a", "b", "c", "d"], exact=True)
+        imp(fs, "no-label-coordinate", del_attrs=[], drop_vdims_coord=True)
+        imp(fs, "no-label-coordinate", del_attrs=list(GEO_ATTRS), drop_vdims_coord=True)
+    # d2: the field's own unit is exported; an explicit argument wins; '' falls back
+    for unit, arg in (("A/m", None), ("A/m", "mT"), ("A/m", ""), (None, None), (None, "T"), ("", None)):
+        exp(dfield(r, [0.0], [4.0], [4], unit=unit, exact=True), arg)
+        exp(dfield(r, [0, 0], [2, 2], [2, 2], nvdim=3, unit=unit, exact=True), arg)
+    # d3: custom dimension names survive when a coordinate has no unit
+    for dims in (["a", "b"], ["long_name", "q_1"], ["y", "x"]):
+        fs = dfield(r, [0, 0], [2, 3], [2, 3], dims=dims, units=["nm", "s"], exact=True)
+        imp(fs, "no-coordinate-unit", del_attrs=[], del_cunits=[0])
+        imp(fs, "no-coordinate-unit", del_attrs=list(GEO_ATTRS), del_cunits=[0, 1])
+        imp(fs, "no-coordinate-unit", del_attrs=["pmin"], del_cunits=[1])
+    # e1: used, then the mesh's region moved / scaled directly (and through the mesh), then exported
+    for ops in ([dict(op="region.translate", v=[S(F(3)), S(F(-5, 2))])], [dict(op="region.scale", f=2)],
+                [dict(op="region.scale", f=-0.5)], [dict(op="mesh.translate", v=[S(F(1, 4)), S(F(7))])],
+                [dict(op="mesh.scale", f=4)], [dict(op="mesh.rotate90", a=0, b=1, k=1)],
+                [dict(op="region.translate", v=[S(F(1)), S(F(1))]), dict(op="array.write", idx=[1, 2])],
+                [dict(op="field.rotate90", a=0, b=1, k=1)]):
+        for then in ("export", "round"):
+            fs = dfield(r, [0, 1], [3, 4], [3, 3], nvdim=2, exact=True)
+            out.append(dict(kind="inplace", field=fs, ops=ops, then=then, unit_arg=None))
+    # e2: unlabelled vector fields: no component coordinate on export, importable
+    for nd_, nv in ((2, 2), (3, 3), (1, 4), (2, 3), (1, 2)):
+        fs = dfield(r, [0.0] * nd_, [2.0] * nd_, [2] * nd_, nvdim=nv, vdims=[], exact=True)
+        exp(fs)
+        rnd(fs)
+        imp(fs, "unlabelled", del_attrs=list(GEO_ATTRS))
+        out.append(dict(kind="secondgen", field=fs))
+    # e3: single-cell axes with decimal corners and a zero / tiny tolerance: pmin + (pmax - pmin) > pmax in floats
+    for lo, hi in ((-20e-9, 2e-9), (-1.9, 0.1), (-0.3, 0.1), (-2.3e-9, 0.7e-9)):
+        for tf in (0.0, 1e-30, 1e-12):
+            rnd(dfield(r, [lo], [hi], [1], tf=tf))
+            rnd(dfield(r, [0.0, lo], [3.0, hi], [3, 1], nvdim=2, tf=tf))
+            imp(dfield(r, [lo, lo], [hi, hi], [1, 1], tf=tf), "single-cell-decimal", del_attrs=["pmin", "pmax"])
+    # known findings keep being exercised
+    fs = dfield(r, [0.0], [3.0], [3], vdims=["s"], exact=True)
+    rnd(fs)
+    fs = dfield(r, [0, 0], [2, 2], [2, 2], dims=["vdims", "y"], exact=True)
+    rnd(fs)
+    # hand-built DataArrays: component axis with and without coordinate, missing nvdim
+    rr = random.Random(424243)
+    for k in range(12):
+        out.append(gen_raw(rr, k % 2 == 0))
+    return out
+
+
 def generate(rng, tier):
-    nf = 44 if tier == "quick" else 440
-    cases = []
+    nf = 36 if tier == "quick" else 400         # random streams (trimmed to make room for the directed core)
+    cases = directed_core()
     for k in range(nf):
         exact = k % 2 == 0
         fs = gen_field(rng, exact, tier)
@@ -451,7 +596,7 @@ def observe_da(xa):
     return dict(dims=dims, shape=[int(s) for s in xa.values.shape], numeric=numeric,
                 coords=[fracs(xa[d].values) if numeric else [] for d in geo],
                 cunits=[xa[d].attrs.get("units") for d in geo],
-                vdims=[str(v) for v in xa["vdims"].values] if "vdims" in xa.coords else None,
+                vdims=[str(v) for v in np.atleast_1d(xa["vdims"].values)] if "vdims" in xa.coords else None,
                 data=flat(xa.values), dtype=str(xa.values.dtype),
                 a_units=at.get("units"), a_cell=opt_list("cell"), a_pmin=opt_list("pmin"), a_pmax=opt_list("pmax"),
                 a_nvdim=int(at["nvdim"]) if "nvdim" in at else None,
@@ -629,7 +774,11 @@ def same_field(fo, go, lo_hi_exact, check_tf=True):
         bad.append("round-trip-corners")
     if go["nvdim"] != fo["nvdim"] or go["data"] != fo["data"]:
         bad.append("round-trip-values")
-    if go["vdims"] != fo["vdims"]:
+    want_labels = fo["vdims"]
+    if fo["nvdim"] > 1 and not fo["vdims"]:
+        # an unlabelled vector field has no 'vdims' coordinate; the constructor then assigns its default labels
+        want_labels = DEFAULT_LABELS[fo["nvdim"]]
+    if go["vdims"] != want_labels:
         bad.append("round-trip-labels")
     if go["dtype"] != fo["dtype"]:
         bad.append("round-trip-dtype")
@@ -688,7 +837,7 @@ def export_oracle(st, o, unit_arg, exact):
             bad.append("export-coords-not-centres")
     if o["cunits"] != st["units"]:
         bad.append("export-coord-units")
-    if st["nvdim"] > 1 and o["vdims"] != st["vdims"]:
+    if st["nvdim"] > 1 and o["vdims"] != (st["vdims"] or None):
         bad.append("export-component-labels")
     if o["a_cell"] is None or len(o["a_cell"]) != nd or not all(close(x, w, s_, exact) for x, w, s_ in zip(o["a_cell"], cell, sc)):
         bad.append("export-attr-cell")
@@ -708,7 +857,9 @@ def export_oracle(st, o, unit_arg, exact):
 def state_fs(st):
     """an observed field state in the shape fspec_coq expects"""
     return dict(p1=[S(x) for x in st["pmin"]], p2=[S(x) for x in st["pmax"]], dims=st["dims"], units=st["units"],
-                tf=S(st["tf"]), n=st["n"], nvdim=st["nvdim"], vdims=st["vdims"], dtype=st["dtype"], unit=st["unit"])
+                tf=S(st["tf"]), n=st["n"], nvdim=st["nvdim"],
+                vdims=[] if st["nvdim"] > 1 and st["vdims"] is None else st["vdims"],      # [] = explicitly unlabelled
+                dtype=st["dtype"], unit=st["unit"])
 
 
 def attrs_snapshot(xa):
@@ -1025,7 +1176,7 @@ def run_state(c, rec):
     bad += same_field(fo, g1o, True)
     bad += ["second-" + b for b in export_oracle(g1o, o2, None, exact)]
     for key in ("dims", "shape", "coords", "cunits", "vdims", "data", "dtype", "a_cell", "a_pmin", "a_pmax", "a_nvdim", "a_tf"):
-        if o1[key] != o2[key] and not (key == "vdims" and fs["nvdim"] == 1):
+        if o1[key] != o2[key] and not (key == "vdims" and (fs["nvdim"] == 1 or not fs["vdims"])):
             bad.append("second-export-differs")
     s2, g2 = attempt(lambda: df.Field.from_xarray(xa2))
     if s2 != "ok":
